@@ -1,6 +1,7 @@
 package main
 
 import (
+	"math/bits"
 	textnorm "golang.org/x/text/unicode/norm"
 	"encoding/base64"
 	"fmt"
@@ -1231,6 +1232,45 @@ func init() {
 	reg("os.Getenv", func(in *Interp, fn *ssa.Function, a []Value, c *frame, s ssa.Instruction) (Value, bool) {
 		return "", true
 	})
+	// sort.Slice / sort.SliceStable / sort.SliceIsSorted: the package obtains length and swap function through
+	// internal/reflectlite; here the swap is an engine function over the slice's backing array and the package's
+	// own sorting routines (pdqsort_func, stable_func: real SSA) run with the caller's less function.
+	sortSlice := func(routine string) intrinsicFn {
+		return func(in *Interp, fn *ssa.Function, a []Value, c *frame, s ssa.Instruction) (Value, bool) {
+			ifc, ok := a[0].(Iface)
+			if !ok {
+				unsup("%s of a non-interface value", fn.Name())
+			}
+			sl, ok := ifc.v.(Slice)
+			if !ok {
+				unsup("%s of %T", fn.Name(), ifc.v)
+			}
+			swap := &NativeFn{f: func(in *Interp, args []Value) Value {
+				i, iok := args[0].(Int)
+				j, jok := args[1].(Int)
+				if !iok || !jok {
+					unsup("sort swap with symbolic indices")
+				}
+				pi, pj := sl.at(int(int64(i.v))), sl.at(int(int64(j.v)))
+				vi, vj := pi.load(), pj.load()
+				pi.store(vj)
+				pj.store(vi)
+				return nil
+			}}
+			ls := &Struct{f: []Value{a[1], swap}}
+			pkg := fn.Pkg
+			switch routine {
+			case "stable_func":
+				in.callFn(pkg.Func("stable_func"), []Value{ls, Int{uint64(sl.len)}}, nil, c, s)
+			case "pdqsort_func":
+				limit := bits.Len(uint(sl.len))
+				in.callFn(pkg.Func("pdqsort_func"), []Value{ls, Int{0}, Int{uint64(sl.len)}, Int{uint64(limit)}}, nil, c, s)
+			}
+			return nil, true
+		}
+	}
+	reg("sort.SliceStable", sortSlice("stable_func"))
+	reg("sort.Slice", sortSlice("pdqsort_func"))
 	reg("sort.Strings", nil)
 	delete(intrinsicTable, "sort.Strings")
 }
